@@ -22,6 +22,20 @@ replace 'version', append an alternative to every group and a group to the conju
   * parse_relations(str(r)) is still r
 
 and the edits are undone (so that no later case sees them, should the library share the edited objects).
+
+Key-order pass: a relation dict is a dict - two dicts with the same items are the same structure whatever the order in
+which their keys were inserted.  Every atom is built again with its keys inserted in other orders (reversed, 'name'
+last, version/arch swapped, the keys that carry a value first) and - PkgRelation.str reads the optional parts with
+dict.get - with the optional keys whose value is None left out (in canonical order, reversed); the atoms of the pair
+core in all 120 insertion orders of the five keys and all orders of 'name' + the keys that carry a value; ordered pairs
+over the triple core with independently chosen orders for the two atoms.  Then
+
+  * PkgRelation.str gives the same string as for the canonical dict and leaves its argument (key order included) alone
+  * parse_relations of it gives the canonical structure without a warning, and str of that the same string
+
+Repetition pass: relations in which equal alternatives / equal groups occur more than once ([[a],[a]], [[a, a]],
+[[a],[b],[a]], [[a, b],[c],[a, b]], ...) over the pair core, built from equal but distinct objects and from one shared
+object per distinct atom / group.
 """
 import itertools
 import warnings
@@ -41,7 +55,11 @@ RULE = ("Engine B on a grammar product: states = distinct generator prefixes (na
         "which one component carries one swept character; aliasing pass: one state / transition / trace per "
         "(structure, edit history) = format, parse twice, edit the first result in place everywhere, format and parse "
         "again; evaluations = its oracle comparisons; such a case is non-trivial when some atom has an architecture "
-        "list or a restriction formula (a nested list that can be shared)")
+        "list or a restriction formula (a nested list that can be shared); key-order pass: one state / transition / "
+        "trace per (structure, key insertion order of each atom); such a case is non-trivial when for some atom the "
+        "keys that carry a value are not in canonical order or a None-valued key is left out; repetition pass: one "
+        "state / transition / trace per (shape with repeated atoms or groups, object sharing); non-trivial by the "
+        "rule for ordinary structures")
 BUDGET = {"quick": 240, "thorough": 3000}
 
 KEYS = ("name", "archqual", "version", "arch", "restrictions")
@@ -62,6 +80,14 @@ def bounds(tier):
             "aliasing": "every one of the 3520 atoms + %d ordered pairs over the triple core x {OR, AND}; edits per result: "
                         "append to every 'arch' list, to the first group of and to every 'restrictions' list, replace "
                         "every 'version', append an alternative to every group, append a group" % (tc * tc),
+            "key_orders": "every one of the 3520 atoms x up to %d non-canonical key lists (%s; duplicates for an atom "
+                          "dropped); every pair-core atom x all 120 insertion orders of the five keys and all orders of "
+                          "('name' + the keys that carry a value); %d ordered pairs over the triple core x {OR, AND} x up "
+                          "to 15 combinations of per-atom key lists from (%s)"
+                          % (len(NAMED_ORDERS), ", ".join(NAMED_ORDERS), tc * tc, ", ".join(PAIR_ORDERS)),
+            "repetitions": "every pair-core atom a (b, c = the next two core atoms) x shapes %s x {equal but distinct "
+                           "objects, one shared object per distinct atom and group}; cases already in the pair / triple "
+                           "spaces are not repeated" % ", ".join(REPEAT_SHAPES),
             "core_selection": "deterministic greedy cover of all 2-way combinations of component values and all 16 "
                               "presence masks of the optional parts, then an even stride; independent of the seed"}
 
@@ -79,6 +105,15 @@ def assumptions():
         "caller did to an earlier result; two results sharing objects (is) is only counted, it is reported when an "
         "in-place edit of one result shows in the other; the structure handed to PkgRelation.str must not be changed "
         "by the call",
+        "key-order pass: a structure is a list of lists of dicts and dict equality ignores insertion order, so 'every "
+        "structured relationship' includes dicts whose keys were inserted in any order; the expected string is the one "
+        "PkgRelation.str gives for the canonically ordered equal dict (itself checked by the ordinary case)",
+        "a dict that leaves out an optional key stands for the structure with that key None: PkgRelation.str reads "
+        "archqual, version, arch and restrictions with dict.get() (lib/debian/deb822.py pp_atomic_dep) and the unchanged "
+        "library formats {'name': 'a'} as 'a'; for such a dict the round trip is demanded against the structure with all "
+        "five keys (parse_relations always returns all five), under signatures rel/omitted-keys/*; 'name' is never left out",
+        "repetition pass: a conjunction / an alternative group is a list, not a set - equal members may occur more than "
+        "once and each occurrence is formatted; the same object may occur at several positions",
         "sweep character sets (policy, not what the regex happens to take): package names a<c>b with c in [a-z0-9+.-], "
         "architecture qualifiers and architecture names a<c>b with c in [a-z0-9-], versions 1<c>2 with c in "
         "[A-Za-z0-9.+~-] and the epoch colon as '1:2', build-profile names a<c>b with c in [a-z0-9+.-] (the parser takes "
@@ -196,20 +231,105 @@ def select_core(n_pairs, n_triples):
 
 
 # ------------------------------------------------------------------------------------------------
+# key insertion orders and repetition shapes
+
+NAMED_ORDERS = ("reversed", "name last", "version/arch swapped", "keys with a value first",
+                "None-valued keys omitted", "None-valued keys omitted + reversed")
+PAIR_ORDERS = ("canonical", "reversed", "None-valued keys omitted + name last")
+REPEAT_SHAPES = ("a,a", "a|a", "a,b,a", "b,a,a", "a,a,b", "a|b|a", "a|a|b", "a,a,a", "a|a|a", "a|a,a", "a,a|a",
+                 "a|b,a|b", "a|b,b|a", "a|b,c,a|b", "a,b,a,b", "a,b,c,a", "a|b|a|b", "b,a|a,c")
+
+
+def named_key_list(a, order):
+    """the key list (insertion order; keys not listed are left out) of atom a = [name, archqual, ...] for a named order"""
+    opt = list(KEYS[1:])
+    have = [k for k, v in zip(opt, a[1:]) if v is not None]
+    none = [k for k in opt if k not in have]
+    return {
+        "canonical": list(KEYS),
+        "reversed": list(KEYS[::-1]),
+        "name last": opt + ["name"],
+        "alphabetical": sorted(KEYS),
+        "name first + rest reversed": ["name"] + opt[::-1],
+        "version/arch swapped": ["name", "archqual", "arch", "version", "restrictions"],
+        "keys with a value first": ["name"] + have + none,
+        "None-valued keys first": none + ["name"] + have,
+        "None-valued keys omitted": ["name"] + have,
+        "None-valued keys omitted + reversed": have[::-1] + ["name"],
+        "None-valued keys omitted + name last": have + ["name"],
+    }[order]
+
+
+def key_lists(a, orders=NAMED_ORDERS):
+    """distinct non-canonical key lists of atom a for the given named orders, in that order"""
+    out = []
+    for o in orders:
+        kl = named_key_list(a, o)
+        if kl != list(KEYS) and kl not in out:
+            out.append(kl)
+    return out
+
+
+def perm_key_lists(a):
+    """every insertion order of the five keys and of ('name' + the keys that carry a value) that key_lists(a) lacks"""
+    have = ["name"] + [k for k, v in zip(KEYS[1:], a[1:]) if v is not None]
+    named = key_lists(a)
+    out = []
+    for base in (list(KEYS), have):
+        for p in itertools.permutations(base):
+            kl = list(p)
+            if kl != list(KEYS) and kl not in named and kl not in out:
+                out.append(kl)
+    return out
+
+
+def pair_key_lists(a1, a2):
+    out = []
+    for o1 in PAIR_ORDERS:
+        for o2 in PAIR_ORDERS:
+            kk = [named_key_list(a1, o1), named_key_list(a2, o2)]
+            if kk != [list(KEYS), list(KEYS)] and kk not in out:
+                out.append(kk)
+    return out
+
+
+def letters_rels(shape, atoms):
+    """'a|b,c,a|b' with atoms {'a': ..., 'b': ..., 'c': ...} -> [[a, b], [c], [a, b]]"""
+    return [[atoms[x] for x in grp.split("|")] for grp in shape.split(",")]
+
+
+# ------------------------------------------------------------------------------------------------
 # oracle (shared by run_unit and replay)
 
-def build(case_rels):
+def build(case_rels, keys=None, share=False):
+    """keys: one key list per atom (in reading order; cycled) = the order in which the dict's keys are inserted, keys not
+    listed are left out; share: one dict object per distinct (atom, key list) and one list object per distinct group"""
     from debian.deb822 import PkgRelation as R
     out = []
+    k = 0
+    atoms, groups = {}, {}
     for group in case_rels:
         g = []
-        for name, archqual, version, arch, restr in group:
-            g.append({
+        for a in group:
+            name, archqual, version, arch, restr = a
+            kl = list(KEYS) if not keys else keys[k % len(keys)]
+            k += 1
+            memo = repr((a, kl)) if share else None
+            if share and memo in atoms:
+                g.append(atoms[memo])
+                continue
+            full = {
                 "name": name, "archqual": archqual,
                 "version": None if version is None else tuple(version),
-                "arch": None if arch is None else [R.ArchRestriction(bool(e), a) for e, a in arch],
+                "arch": None if arch is None else [R.ArchRestriction(bool(e), x) for e, x in arch],
                 "restrictions": None if restr is None else [[R.BuildRestriction(bool(e), p) for e, p in grp] for grp in restr],
-            })
+            }
+            assert "name" in kl and len(set(kl)) == len(kl) and all(full[x] is None for x in KEYS if x not in kl), kl
+            d = full if not keys else dict((x, full[x]) for x in kl)
+            atoms[memo] = d
+            g.append(d)
+        if share:
+            g = groups.setdefault(tuple(id(d) for d in g), g)
         out.append(g)
     return out
 
@@ -236,8 +356,10 @@ def exec_case(case):
     """-> (violations, outcome class, evaluations)"""
     if case.get("alias"):
         return exec_alias(case)
+    if case.get("keys"):
+        return exec_keys(case)
     from debian.deb822 import PkgRelation as R
-    rels = build(case["rels"])
+    rels = build(case["rels"], share=bool(case.get("share")))
     ev = 1
     try:
         s = R.str(rels)
@@ -279,9 +401,88 @@ def exec_case(case):
     return bad, outcome, ev
 
 
+def _items(rels):
+    return [[list(d.items()) for d in g] for g in rels]
+
+
+def exec_keys(case):
+    """-> (violations, outcome class, evaluations): the structure built with other key insertion orders formats as the
+    canonically ordered one and parses back to it.  What the ordinary case reports is not reported again here."""
+    from debian.deb822 import PkgRelation as R
+    canon = build(case["rels"])
+    rels = build(case["rels"], keys=case["keys"], share=bool(case.get("share")))
+    flat = [d for g in rels for d in g]
+    omitted = any(len(d) < len(KEYS) for d in flat)
+    fam = "rel/omitted-keys" if omitted else "rel/keyorder"
+    if not omitted:
+        assert rels == canon
+    n_perm = sum(1 for d in flat if [k for k in d if d[k] is not None] != [k for k in KEYS if d.get(k) is not None])
+    if len(flat) == 1:
+        cls = "%s: %s, %s%s" % (fam[4:], _mask(flat[0]),
+                                "keys with a value out of order" if n_perm else "keys with a value in order",
+                                ", %d left out" % (len(KEYS) - len(flat[0])) if omitted else "")
+    else:
+        cls = "%s: %d atoms, %d with the keys that carry a value out of order%s" % (
+            fam[4:], len(flat), n_perm, ", some left out" if omitted else "")
+    try:
+        s0 = R.str(canon)
+    except Exception:
+        return [], "keys: str of the canonical dict raises (see the ordinary case)", 1
+    before = _items(rels)
+    ev = 2
+    try:
+        s = R.str(rels)
+    except Exception as e:
+        return ([(fam + "/str/raises:%s" % type(e).__name__, s0, "%r -> %s: %s" % (rels, type(e).__name__, e))],
+                "VIOLATION " + cls, ev)
+    bad = []
+    ev += 1
+    if _items(rels) != before:
+        bad.append((fam + "/str-changes-its-argument", before, _items(rels)))
+    ev += 1
+    if s != s0:
+        bad.append((fam + "/str/differs", "%r as for the equal dict with keys in canonical order, for %r" % (s0, rels), s))
+    ev += 1
+    with warnings.catch_warnings(record=True) as w:
+        warnings.simplefilter("always")
+        try:
+            back = R.parse_relations(s)
+        except Exception as e:
+            bad.append((fam + "/parse/raises:%s" % type(e).__name__, canon, "%r -> %s: %s" % (s, type(e).__name__, e)))
+            return bad, "VIOLATION " + cls, ev
+    ev += 1
+    if w:
+        bad.append((fam + "/parse/warning", "no warning for %r" % s, [str(x.message) for x in w]))
+    ev += 1
+    if back != canon:
+        bad.append((fam + "/parse/" + where(back, canon), "%r -> %r" % (s, canon), back))
+    ev += 1
+    try:
+        s2 = R.str(back)
+        if s2 != s:
+            bad.append((fam + "/restr/differs", s, s2))
+    except Exception as e:
+        bad.append((fam + "/restr/raises:%s" % type(e).__name__, s, "%s: %s" % (type(e).__name__, e)))
+    return bad, ("VIOLATION " if bad else "") + cls, ev
+
+
+def keys_nontrivial(case):
+    k = 0
+    for g in case["rels"]:
+        for a in g:
+            kl = case["keys"][k % len(case["keys"])]
+            k += 1
+            have = ["name"] + [x for x, v in zip(KEYS[1:], a[1:]) if v is not None]
+            if len(kl) < len(KEYS) or [x for x in kl if x in have] != have:
+                return True
+    return False
+
+
 def nontrivial(case):
     if case.get("alias"):
         return alias_nontrivial(case)
+    if case.get("keys"):
+        return keys_nontrivial(case)
     return any(sum(1 for x in a[1:] if x is not None) >= 2 for g in case["rels"] for a in g)
 
 
@@ -433,6 +634,10 @@ def units(tier, seed):
     out += [("sweep", name) for name, _v in sweep_plan()]
     out += [("alias", n, q) for n in range(RADIX[0]) for q in range(RADIX[1])]
     out += [("alias-pairs", i, tc) for i in range(len(tc))]
+    out += [("keys", n, q) for n in range(RADIX[0]) for q in range(RADIX[1])]
+    out += [("keys-perm", i, pc) for i in range(len(pc))]
+    out += [("keys-pairs", i, tc) for i in range(len(tc))]
+    out += [("repeat", i, pc, tc) for i in range(len(pc))]
     return out
 
 
@@ -445,6 +650,14 @@ def unit_cost(u, tier):
         return 2 * 2 * len(u[2])
     if u[0] == "sweep":
         return 80
+    if u[0] == "keys":
+        return 176 * 5
+    if u[0] == "keys-perm":
+        return 130
+    if u[0] == "keys-pairs":
+        return 2 * 8 * len(u[2])
+    if u[0] == "repeat":
+        return 2 * len(REPEAT_SHAPES)
     return 3 * 4 * len(u[2]) ** 2
 
 
@@ -516,6 +729,77 @@ def run_unit(u, tier, seed):
                 _do(part, case)
                 part.extra["aliasing: pairs"] += 1
         if i % 4 == 0:
+            part.sample(case)
+        return part
+    if u[0] == "keys":
+        _, n, q = u
+        part.max_depth = 6
+        for v in range(RADIX[2]):
+            for a in range(RADIX[3]):
+                for r in range(RADIX[4]):
+                    at = atom(C, (n, q, v, a, r))
+                    for kl in key_lists(at):
+                        node()
+                        case = {"rels": [[at]], "keys": [kl]}
+                        _do(part, case)
+                        part.extra["key orders: single atoms x named orders"] += 1
+                    if (v, a, r) == (5, 2, 3):
+                        part.sample(case)
+        return part
+    if u[0] == "keys-perm":
+        _, i, pc = u
+        at = atom(C, pc[i])
+        part.max_depth = 6
+        for kl in perm_key_lists(at):
+            node()
+            case = {"rels": [[at]], "keys": [kl]}
+            _do(part, case)
+            part.extra["key orders: pair-core atoms x remaining permutations"] += 1
+        if i % 16 == 0:
+            part.sample(case)
+        return part
+    if u[0] == "keys-pairs":
+        _, i, tc = u
+        a1 = atom(C, tc[i])
+        part.max_depth = 12
+        for shape in ("a|b", "a,b"):
+            for ix in tc:
+                a2 = atom(C, ix)
+                for kk in pair_key_lists(a1, a2):
+                    node()
+                    case = {"rels": shape_rels(shape, [a1, a2]), "keys": kk}
+                    _do(part, case)
+                    part.extra["key orders: pairs"] += 1
+        if i % 4 == 0:
+            part.sample(case)
+        return part
+    if u[0] == "repeat":
+        _, i, pc, tc = u
+        abc = dict((x, atom(C, pc[(i + j) % len(pc)])) for j, x in enumerate("abc"))
+        in_tc = dict((x, pc[(i + j) % len(pc)] in tc) for j, x in enumerate("abc"))
+        part.max_depth = 20
+        for shape in REPEAT_SHAPES:
+            used = [x for x in shape if x in "abc"]
+            for share in (0, 1):
+                if not share and len(used) == 2:
+                    continue        # (a, a): in the pair space
+                if not share and len(used) == 3 and all(in_tc[x] for x in used):
+                    continue        # three atoms of the triple core: in the triple space (all four shapes are)
+                node()
+                case = {"rels": letters_rels(shape, abc)}
+                if share:
+                    case["share"] = 1
+                bad, outcome, ev = exec_case(case)
+                part.traces += 1
+                part.evaluations += ev
+                part.outcomes["repeat %s%s: %s" % (shape, ", shared objects" if share else "",
+                                                   "VIOLATION" if bad else "round trip ok")] += 1
+                if nontrivial(case):
+                    part.nontrivial += 1
+                for sig, exp, obs in bad:
+                    part.violation(sig, case, exp, obs)
+                part.extra["repetitions"] += 1
+        if i % 16 == 0:
             part.sample(case)
         return part
     if u[0] == "sweep":
@@ -598,16 +882,43 @@ def repro_py(case):
                 "assert R.str(rels) == s and rels == pristine\n"
                 "back = R.parse_relations(R.str(rels))\n"
                 "assert back == pristine, (s, back)\n" % (case["rels"],))
+    if case.get("keys"):
+        return ("import warnings\nfrom debian.deb822 import PkgRelation as R\n"
+                "case, keys = %r, %r\n"
+                "KEYS = ('name', 'archqual', 'version', 'arch', 'restrictions')\n"
+                "def build(keys):      # keys: per atom, the order in which the dict's keys are inserted\n"
+                "    out, k = [], 0\n"
+                "    for group in case:\n"
+                "        out.append([])\n"
+                "        for n, q, v, a, r in group:\n"
+                "            full = {'name': n, 'archqual': q, 'version': None if v is None else tuple(v),\n"
+                "                    'arch': None if a is None else [R.ArchRestriction(e, x) for e, x in a],\n"
+                "                    'restrictions': None if r is None else [[R.BuildRestriction(e, p) for e, p in g] for g in r]}\n"
+                "            out[-1].append(dict((x, full[x]) for x in keys[k %% len(keys)]))   # keys left out are None in full\n"
+                "            k += 1\n"
+                "    return out\n"
+                "canon, rels = build([KEYS]), build(keys)\n"
+                "s = R.str(rels)\n"
+                "assert s == R.str(canon), (s, R.str(canon))\n"
+                "with warnings.catch_warnings(record=True) as w:\n"
+                "    warnings.simplefilter('always')\n"
+                "    back = R.parse_relations(s)\n"
+                "assert not w, [str(x.message) for x in w]\n"
+                "assert back == canon, (s, back)\n"
+                "assert R.str(back) == s, R.str(back)\n" % (case["rels"], case["keys"]))
     return ("import warnings\nfrom debian.deb822 import PkgRelation as R\n"
             "case = %r\n"
             "rels = [[{'name': n, 'archqual': q, 'version': None if v is None else tuple(v),\n"
             "          'arch': None if a is None else [R.ArchRestriction(e, x) for e, x in a],\n"
             "          'restrictions': None if r is None else [[R.BuildRestriction(e, p) for e, p in g] for g in r]}\n"
-            "         for n, q, v, a, r in group] for group in case]\n"
+            "         for n, q, v, a, r in group] for group in case]\n" % (case["rels"],)
+            + ("memo = {}          # equal atoms / groups are one shared object\n"
+               "rels = [[memo.setdefault(repr(d), d) for d in g] for g in rels]\n"
+               "rels = [memo.setdefault(repr(g), g) for g in rels]\n" if case.get("share") else "") +
             "s = R.str(rels)\n"
             "with warnings.catch_warnings(record=True) as w:\n"
             "    warnings.simplefilter('always')\n"
             "    back = R.parse_relations(s)\n"
             "assert not w, [str(x.message) for x in w]\n"
             "assert back == rels, (s, back)\n"
-            "assert R.str(back) == s, R.str(back)\n" % (case["rels"],))
+            "assert R.str(back) == s, R.str(back)\n")
